@@ -111,10 +111,15 @@ def local(q: str) -> str:
     return q.split("}")[-1]
 
 
+EXTRA_NS = {"x": "urn:x", "y": "urn:y", "z": "urn:z"}
+
+
 def attr_key(a: GD.AttDef) -> str:
     p, _, l = a.name.rpartition(":")
     if p == "xml":
         return f"{{{I.XMLNS}}}{l}"
+    if p in EXTRA_NS:
+        return f"{{{EXTRA_NS[p]}}}{l}"
     if p:
         raise HarnessError(f"attribute prefix {p!r} is not part of G-dtd")
     return l
@@ -167,9 +172,10 @@ def captured_log():
 
 def ns_map_of(d: GD.Dtd):
     """The prefixes the DTD spells out: DTD validity is about literal names, so the output is asked for with the same prefix."""
-    if d.ns is None:
-        return None
-    return {None: GD.NS_DEFAULT} if d.ns[0] == "default" else {GD.PFX: GD.NS_PREFIX}
+    m = dict(d.extra_ns)
+    if d.ns is not None:
+        m.update({None: GD.NS_DEFAULT} if d.ns[0] == "default" else {GD.PFX: GD.NS_PREFIX})
+    return m or None
 
 
 @harness("c16.faithful")
